@@ -6,7 +6,10 @@ import PyseqmVerif.Model.Util
 Mirrors `seqm/NonadiabaticDynamics.py`:
 * `NonadiabaticDynamicsBase.populations`                          → `population`
 * `SurfaceHoppingDynamics._attempt_hop`                            → `hopProbabilities`, `cumsum`, `chooseHop`, `attemptHop`
-* `SurfaceHoppingDynamics._rescale_velocity_along_nac`             → `d2ByM`, `dot`, `rescaleAlpha`, `applyAlpha`, `rescaleVelocity`
+* `SurfaceHoppingDynamics._rescale_velocity_along_nac`             → `d2ByM`, `dot`, `rescaleAlpha`, `applyAlpha`,
+  `rescaleVelocity` (sign function as a parameter), `rescaleVelocityFixed` (= the live code, which since the
+  repair of F14 uses `sgn = torch.where(v_dot_d < 0, -1, 1)`; `rescaleVelocity … tsign …` is the
+  pre-repair formula `torch.sign(v_dot_d)`, kept for the regression statement)
 * the accept/reject part of `SurfaceHoppingDynamics._after_electronic_update` (default
   `decohere_on_hop = False`)                                        → `hopOutcome`
 * the two-phase assignment `swap_to[m, i_sel] = j_sel; swap_to[m, j_sel] = i_sel` at the end of
@@ -39,9 +42,10 @@ def clampMin [LT α] [DecidableLT α] (c x : α) : α := if x < c then c else x
 def tsign [LT α] [DecidableLT α] [Neg α] [OfNat α 0] [OfNat α 1] (b : α) : α :=
   if 0 < b then 1 else if b < 0 then -1 else 0
 
-/-- the one-line repair `torch.where(v_dot_d >= 0, 1.0, -1.0)` -/
-def signFixed [LE α] [DecidableLE α] [Neg α] [OfNat α 0] [OfNat α 1] (b : α) : α :=
-  if 0 ≤ b then 1 else -1
+/-- the sign of the repaired routine (fix of F14, now in the live code):
+    `sgn = torch.where(v_dot_d < 0, -torch.ones_like(v_dot_d), torch.ones_like(v_dot_d))` -/
+def signFixed [LT α] [DecidableLT α] [Neg α] [OfNat α 0] [OfNat α 1] (b : α) : α :=
+  if b < 0 then -1 else 1
 
 /-- `populations`: `x * x + y * y` -/
 def population [Add α] [Mul α] (x y : α) : α := x * x + y * y
@@ -127,7 +131,7 @@ v_dot_d = torch.sum(molecule.velocities[mol_index] * dvec)
 rad = v_dot_d * v_dot_d - 2.0 * (dE / CONSTANTS.KINETIC_ENERGY_SCALE) * d2_by_m
 if rad <= 0: return False
 sqrt_rad = torch.sqrt(rad)
-alpha = (-v_dot_d + torch.sign(v_dot_d) * sqrt_rad) / d2_by_m
+alpha = (-v_dot_d + sgn * sqrt_rad) / d2_by_m      # sgn = sign(v_dot_d): `signFixed` (live) / `tsign` (pre-repair)
 ``` -/
 def rescaleAlpha (sqrt sign : α → α) (kes : α) (v d minv : List α) (dE : α) : Option α :=
   let d2 := d2ByM d minv
@@ -172,9 +176,10 @@ end rescale
 
 section rescaleFixed
 variable [Add α] [Sub α] [Mul α] [Div α] [Neg α] [OfScientific α] [OfNat α 0] [OfNat α 1] [OfNat α 2]
-variable [LE α] [DecidableLE α]
+variable [LE α] [DecidableLE α] [LT α] [DecidableLT α]
 
-/-- the repaired routine: identical except `sign(0) := +1` -/
+/-- the routine AS IT STANDS IN THE LIVE CODE (after the F14 repair): identical to
+    `rescaleVelocity … torch.sign …` except `sgn = -1 if v_dot_d < 0 else +1`, so `sign(0) = +1` -/
 def rescaleVelocityFixed (sqrt : α → α) (kes : α) (v d minv : List α) (dE : α) : Bool × List α :=
   rescaleVelocity sqrt signFixed kes v d minv dE
 
@@ -240,8 +245,9 @@ def showTarget : Option Nat → String
 * `hop_probs n active xi x[n] y[n] hopint[n*n]` → `target g[n]`
   (`hopint` row-major `_hop_integral[m]`, `xi` the uniform draw; `target = -1` for no hop)
 * `hop_rescale natoms kes dE v[3*natoms] d[3*natoms] minv[natoms]` → `accepted(0/1) v'[3*natoms]`
-  (`d` is the already signed `dvec`; `sign = torch.sign`)
-* `hop_rescale_fixed …` same tokens, repaired sign (`sign(0) = +1`)
+  (`d` is the already signed `dvec`; PRE-REPAIR formula `sgn = torch.sign(v_dot_d)`, `sign(0) = 0`)
+* `hop_rescale_fixed …` same tokens, `sgn = torch.where(v_dot_d < 0, -1, 1)` — THE LIVE CODE since
+  the repair of F14
 * `hop_relabel n active swap_to[n] amp[3*n]` → `active' amp'[3*n]`
   (`swap_to` decimal integers with `-1` = undefined; `amp` = rows `(x, y, θ)` of `_amp_phase[m]`)
 * `hop_buildswap n npairs (i j)*npairs` → `swap_to[n]` (decimal integers) -/
